@@ -53,6 +53,7 @@ type verifRT struct {
 	attempts  int
 	delivered int
 	faults    int
+	chunked   bool // requests may arrive without a declared length
 }
 
 func (t *verifRT) RoundTrip(req *http.Request) (*http.Response, error) {
@@ -64,6 +65,9 @@ func (t *verifRT) RoundTrip(req *http.Request) (*http.Response, error) {
 	}
 	rec := &verifRecorder{hdr: http.Header{}}
 	sreq := &http.Request{Method: req.Method, URL: req.URL, Body: req.Body, ContentLength: req.ContentLength, RemoteAddr: "192.0.2.5:4000"}
+	if t.chunked && verifapi.Bool(fmt.Sprint("chunked", t.attempts)) {
+		sreq.ContentLength = -1 // the body arrives with chunked transfer encoding: its length is not declared
+	}
 	t.server.ServeHTTP(rec, sreq.WithContext(req.Context()))
 	t.delivered++
 	if k == 2 {
@@ -91,6 +95,11 @@ func VerifC17HTTP() {
 	}
 	rt := &verifRT{server: srv}
 	client := &HTTPService{Endpoint: "http://pool.invalid/", HTTPClient: http.Client{Transport: rt}}
+	if verifapi.Param("maxlen", 0) == 1 {
+		// size limits configured on both ends, far above any message of the harness
+		srv.MaxContentLength, client.MaxContentLength = 1<<40, 1<<40
+		rt.chunked = true
+	}
 	n := verifapi.Param("calls", 2)
 	var sent []int64
 	for i := 0; i < n; i++ {
